@@ -1,5 +1,6 @@
 from ._expr_common import run_expr_prop
-from .. import coro_check
+from .. import coro_check, expr_check, gen_stream
+from . import C13
 
 
 def run(tier, seed, verdict):
@@ -17,4 +18,18 @@ def run(tier, seed, verdict):
     cov["crashed_processes"] += c2["crashed_processes"]
     cov["rule"] += (" Additionally %d task<> plan sets (harness/src/coro.cpp) x stop positions with counting / inplace tokens: "
                     "registrations left on the receiver's token at completion (M4) and use of a freed source." % n)
+    # stream adaptors (take_until, stop_immediately-free subset, type_erase) register stop callbacks per next()/cleanup():
+    # same programs and scenarios as C13, judged here only by the registration/stop rules (M4, leaf token state, crashes in
+    # the stop-token machinery)
+    sn, sper, sdepth, sbudget = C13.TIERS[tier]
+    progs = gen_stream.generate(seed, sn, sdepth)
+    sr = expr_check.ExprRun(seed, sn, sper, sdepth, 5, "asan20d", sbudget, name="stream", programs=progs,
+                            scn_fn=gen_stream.scenarios_for)
+    sr.build()
+    sr.execute({"C04": verdict}, None)
+    c3 = sr.coverage()
+    cov["stream_scenarios"] = c3["evaluations"]
+    cov["evaluations"] += c3["evaluations"]
+    cov["crashed_processes"] += c3["crashed_processes"]
+    cov["rule"] += " Additionally the %d generated stream pipelines of C13 (same scenarios), judged by the same stop/registration rules." % sn
     return cov, assume, "exploration"
